@@ -15,6 +15,7 @@ evaluated by the Coq kernel):
 import json
 import math
 import os
+import time
 
 import numpy as np
 
@@ -58,11 +59,15 @@ def _nan_eq_rows(a, b):
 
 
 def _model(fn, case):
-    """the model's value on one case, as Coq prints it; when the case holds non-integral floats every
-    number was multiplied by 2^k first (exact), and k is reported next to the value"""
-    term, k = F.coq_term(case)
+    """the model's value on one case, as Coq prints it; when the case holds non-integral floats its
+    numbers went to the model multiplied by one power of two (exact), or as ranks (c12_util.transport)"""
+    term, how = F.coq_term(case)
     txt = C.coq_eval(IMPORTS, f'{fn} {term}')
-    return txt if k == 0 else {'all_numbers_times_2_to_the': k, 'value': txt[:4000]}
+    if how == ('scale', 0):
+        return txt
+    if how[0] == 'scale':
+        return {'all_numbers_times_2_to_the': how[1], 'value': txt[:4000]}
+    return {'numbers_replaced_by_their_rank_in': how[1], 'value': txt[:4000]}
 
 
 class _DaskProxy:
@@ -795,15 +800,24 @@ def run(rep):
     pk = ([], [], [])
     cost = [0]
     acc = (rb[0], rb[1], rb[2], cost)
+    lap = [time.time()]
+    secs = rep.extra.setdefault('seconds', {})
+
+    def mark(name):
+        now = time.time()
+        secs[name] = round(secs.get(name, 0) + now - lap[0], 1)
+        lap[0] = now
     with dask.config.set(scheduler='synchronous'), U.Scratch() as sc:
         # corpus first
         for ent in corpus_specs():
             run_corpus_entry(rep, sc, ent, acc)
         # natural sort
         U.natsort_check(rep, U.natsort_cases(rep.rng, 60 if tier == 'quick' else 2000), 'C12')
+        mark('natsort')
         # synthetic metadata
         synth_check(rep, sc, synth_docs(rep.rng, 150 if tier == 'quick' else 3000) +
                     F.float_synth_docs(rep.rng, 90 if tier == 'quick' else 1500, SYNTH_PARTS))
+        mark('synthetic-metadata')
         # real datasets
         specs = dataset_specs(rep, tier)
         nbox = 3 if tier == 'quick' else 8
@@ -898,6 +912,7 @@ def run(rep):
         # coordinates that are not small integers (decimals, 16-17 significant digits, 1e-11, 2^53 / 1e16 /
         # 1e22, extents of a few ulps, float32 values, -0.0): stored JSON, exposed bounds and true extents
         # compared as exact binary64 values; boxes that touch an extent exactly / one ulp beyond
+        mark('integral-datasets')
         fspecs = float_specs(rep, tier)
         for si, spec in enumerate(fspecs):
             with U.Scratch() as s2:
@@ -926,6 +941,7 @@ def run(rep):
                         check_read(rep, [ds, ds2], 'list', None, _sample(rep.rng, b0[2:], 3), *acc)
                 if si % 5 == 3:
                     check_read(rep, [drop_common_metadata(ds)], 'single', None, _sample(rep.rng, b0[2:], 2), *acc)
+    mark('float-datasets')
     # model comparisons
     bad = F.coq_mismatches(IMPORTS, RB_FN, RB_CASE, RB_RES, rb[0], rb[1], shard=40)
     seen = set()
@@ -945,6 +961,7 @@ def run(rep):
         rep.count('internal-differs:pack-layout', len(bad))
     rep.extra['internal_pack_layout_differ_from_model'] = len(bad)
     rep.extra['pack_layout_cases'] = len(pk[0])
+    mark('model-evaluation')
     rep.extra['reads'] = cost[0]
     rep.extra['datasets'] = len(dm[0])
     for m, r in list(zip(rb[2], rb[1]))[:3]:
